@@ -93,6 +93,7 @@ type tcase struct {
 	// how the case is run (not part of the model input)
 	via   string // cli: "" (flags) | "env" (atlas.hcl) | "git" (lint --git-base)
 	ro    bool   // cli: read-only connection (?_query_only=1): every write fails
+	busy  bool   // cli: dev URL with _busy_timeout=200 (a restore blocked by a leaked read lock gives up after 0.2 s instead of 5 s)
 	label string // generator bucket
 }
 
@@ -301,6 +302,19 @@ func comboStart(fe string) startState {
 
 const wasm = "libsql_wasm_func_table"
 
+var nameClasses = []struct{ slug, tbl string }{
+	{"underscore", "_prisma_migrations"},
+	{"digit", "1abc"},
+	{"space", "my table"},
+	{"mid-sqlite", "x_sqlite_y"},
+	{"mid-libsql", "my_libsql_t"},
+	{"SQLITE-6", "SQLITE"},                    // no underscore: not reserved, not hidden
+	{"LIBSQL-upper", "LIBSQL_x"},              // hidden from the inspection (LIKE is case-insensitive), a user table all the same
+	{"wasm-shorter", "libsql_wasm_func_tabl"}, // one letter short of the one exempted name
+	{"revisions", "atlas_schema_revisions"},   // Atlas' own revision table (never created in a dev database by Atlas)
+	{"dollar", "t$1"},
+}
+
 var starts = buildStarts()
 
 func buildStarts() []startState {
@@ -338,6 +352,24 @@ func buildStarts() []startState {
 		{name: "unread-hidden", db: []obj{{"tu", "sqlitedb", "sqlitedb", 0}},
 			setup: []string{"CREATE TABLE sqlitedb (id INTEGER PRIMARY KEY, v " + unparsableType + ")"}},
 	}
+	// what counts as "contains anything": user objects whose *names* a cleanliness check or an
+	// inspection might be taught to skip -- leading underscore (tools' own tables), leading digit,
+	// quoted names, "sqlite_"/"libsql_" in the middle, upper-case look-alikes of the hidden prefixes,
+	// Atlas' own revision table; as tables with rows, and as lone views. (The engine itself rejects
+	// SQLITE_FOO / Sqlite_foo: "object name reserved for internal use" -- reserved case-insensitively.)
+	for _, nc := range nameClasses {
+		q := "\"" + nc.tbl + "\""
+		st := startState{name: "name-" + nc.slug, db: []obj{{"t", nc.tbl, nc.tbl, 2}},
+			setup: []string{"CREATE TABLE " + q + " " + tblCols, "INSERT INTO " + q + " (id, v) VALUES (1, 'row1')", "INSERT INTO " + q + " (id, v) VALUES (2, 'row2')"}}
+		l = append(l, st)
+	}
+	l = append(l,
+		startState{name: "name-two-underscore", db: []obj{{"t", "_litestream_seq", "_litestream_seq", 1}, {"t", "_cf_KV", "_cf_KV", 0}, {"i", "_cf_idx", "_cf_KV", 0}},
+			setup: append(append([]string{"CREATE TABLE _litestream_seq " + tblCols}, rowsSQL("_litestream_seq", 1)...), "CREATE TABLE _cf_KV "+tblCols, "CREATE INDEX _cf_idx ON _cf_KV (v)")},
+		startState{name: "name-view-underscore", db: []obj{{"v", "_v", "_v", 0}}, setup: []string{"CREATE VIEW _v AS SELECT 1 AS x"}},
+		startState{name: "name-view-sqlitev", db: []obj{{"v", "sqlitev", "sqlitev", 0}}, setup: []string{"CREATE VIEW sqlitev AS SELECT 1 AS x"}},
+		startState{name: "name-view-mid", db: []obj{{"v", "v_sqlite_x", "v_sqlite_x", 0}}, setup: []string{"CREATE VIEW v_sqlite_x AS SELECT 1 AS x"}},
+	)
 	// every feature singly and every pair of features (exhaustive)
 	fe := "TIVGXHR"
 	for i := 0; i < len(fe); i++ {
@@ -636,6 +668,7 @@ var (
 	snapshotRe   = regexp.MustCompile(`taking database snapshot`)
 	notCleanRe   = regexp.MustCompile(`connected database is not clean`)
 	readonlyRe   = regexp.MustCompile(`attempt to write a readonly database`)
+	lockedRe     = regexp.MustCompile(`database is locked|database table is locked`)
 )
 
 type lintReport struct {
@@ -692,8 +725,11 @@ func classify(c *tcase, exit int, output string) string {
 	if exit == 0 {
 		return "ok"
 	}
-	if readonlyRe.MatchString(output) {
-		return "rfail" // no statement failed, the restore did
+	if readonlyRe.MatchString(output) || lockedRe.MatchString(output) {
+		// no statement failed, the restore did (read-only connection; or "database is locked": a
+		// connection of the command's own pool still holds a lock, the RestoreFunc gave up after the
+		// busy timeout) -- the oracle judges what is left in the file
+		return "rfail"
 	}
 	return "err:other"
 }
@@ -738,8 +774,11 @@ func runCLI(c *tcase, bin, tmpRoot string) (r result) {
 		return
 	}
 	devURL := "sqlite://" + devPath
-	if c.ro {
+	switch {
+	case c.ro:
 		devURL += "?_query_only=1"
+	case c.busy:
+		devURL += "?_busy_timeout=200"
 	}
 	var args []string
 	switch c.cmd {
@@ -1232,10 +1271,57 @@ func genCLI(tier string) []*tcase {
 						(*sc)[k].s = stmt{"ctu", "uu", flavours[n%2]}
 						(*sc)[k+1].s = stmt{"dt", "uu", ""}
 					}
+					c.busy = n%3 != 0 // most of them with the short busy timeout in the URL
 					add(c, "inspect/"+v.name)
 				}
 			}
 		}
+	}
+	// 9. every command x every trigger of the exit once more, explicitly, on the file-backed dev
+	//    database with a short busy timeout in the URL: an error path of the inspection that leaves its
+	//    rows open keeps a read lock on the file, the deferred restore (another pooled connection)
+	//    then fails with "database is locked" and the file keeps what the replay created
+	for _, v := range variants {
+		for ti, trig := range []string{"size", "gen", "index", "exclude"} {
+			for _, st := range []startState{okStarts[(n+ti)%len(okStarts)], okStarts[(n+ti+2)%len(okStarts)]} {
+				c := build(v, st)
+				c.busy = true
+				scs := c.scripts()
+				if len(scs) == 0 {
+					continue
+				}
+				sc := scs[len(scs)-1] // the last script: everything before it succeeded
+				done := false
+				switch trig {
+				case "size", "gen":
+					for k := range *sc {
+						if (*sc)[k].s.op == "ct" {
+							fl := ""
+							if trig == "gen" {
+								fl = "gen"
+							}
+							(*sc)[k].s, done = stmt{"ctu", (*sc)[k].s.a, fl}, true
+							break
+						}
+					}
+				case "index":
+					for k := range *sc {
+						if (*sc)[k].s.op == "ci" {
+							(*sc)[k].s, done = stmt{"ciu", (*sc)[k].s.a, (*sc)[k].s.b}, true
+							break
+						}
+					}
+				case "exclude":
+					if (v.cmd == "sdiff" || v.cmd == "sapply" || v.cmd == "sinspect") && v.from != "hcl" && v.to != "hcl" && v.from != "url" && v.to != "url" {
+						c.excl, done = true, true
+					}
+				}
+				if done {
+					add(c, "lock/"+trig+"/"+v.name)
+				}
+			}
+		}
+		n++
 	}
 	// 8. a malformed --exclude pattern (schema inspect/apply/diff with SQL sources): the replay
 	//    succeeds, the read fails iff there is a table to match the pattern against
